@@ -3,19 +3,30 @@ use crate::css::Value;
 
 pub struct ValueRange {
     from: i64,
-    to: i64,
+    /// The last value to yield (inclusive).
+    last: i64,
     step: i64,
+    done: bool,
     unit: UnitSet,
 }
 
 impl ValueRange {
     pub fn new(from: i64, to: i64, inclusive: bool, unit: UnitSet) -> Self {
         let step = if to >= from { 1 } else { -1 };
-        let to = if inclusive { to + step } else { to };
+        // Note: Keeping an inclusive last value (rather than an
+        // exclusive end) avoids overflow when `to` is an extreme value.
+        let (last, done) = if inclusive {
+            (to, false)
+        } else if to == from {
+            (to, true)
+        } else {
+            (to - step, false)
+        };
         Self {
             from,
-            to,
+            last,
             step,
+            done,
             unit,
         }
     }
@@ -24,12 +35,16 @@ impl ValueRange {
 impl Iterator for ValueRange {
     type Item = Value;
     fn next(&mut self) -> Option<Value> {
-        if self.from.partial_cmp(&self.to) == 0.partial_cmp(&self.step) {
-            let result = Numeric::new(self.from, self.unit.clone()).into();
-            self.from += self.step;
-            Some(result)
-        } else {
+        if self.done {
             None
+        } else {
+            let result = Numeric::new(self.from, self.unit.clone()).into();
+            if self.from == self.last {
+                self.done = true;
+            } else {
+                self.from += self.step;
+            }
+            Some(result)
         }
     }
 }
